@@ -20,6 +20,7 @@ static Plan gen_typed(uint64_t seed, int tier, char const* prof)
   p.cfg["fo"] = fo;
   gen_sched(p, r);
   gen_backend(p, r);
+  gen_backend_mode(p, r);
   gen_loggers_and_sinks(p, r, 2, 2, true);
   fix_timescale(p);
   int nloggers = static_cast<int>(p.cfg["nloggers"]);
